@@ -22,7 +22,7 @@ ASSUMPTIONS = [
 CASES = {"quick": 1600, "thorough": 40000}
 MIN_CASES = {"quick": 150, "thorough": 4000}
 REQUIRED_CLASSES = ["layout", "algorithm"]
-REQUIRED_COUNTERS = ["layouts_judged", "determinism_checked", "fixed_modules_checked", "centres_checked", "algorithm_runs_judged", "trials_recorded", "selection_checked"]
+REQUIRED_COUNTERS = ["layouts_judged", "determinism_checked", "fixed_modules_checked", "centres_checked", "algorithm_runs_judged", "trials_recorded", "selection_checked", "algorithm_runs_after_earlier_queries"]
 
 _fr = None
 _trials = []
@@ -37,7 +37,7 @@ def setup(ctx):
         res = orig(die, kappa, verbose, visualize, max_iter)
         d = res[0]
         try:
-            cost = fr.total_intersection_area(d) + d.netlist.wire_length / 2
+            cost = fr.total_intersection_area(d) + independent_wire_length(d.netlist) / 2
         except Exception as e:  # noqa
             cost = repr(e)
         _trials.append({"kappa": kappa, "cost": cost, "centres": [(m.center.x, m.center.y) for m in d.netlist.modules], "same_object": d is die})
@@ -45,6 +45,17 @@ def setup(ctx):
     fr.fruchterman_reingold_layout = recording      # force_algorithm resolves the global at call time
     fr._fv_original_layout = orig
     _fr = fr
+
+
+def independent_wire_length(nl):
+    """wire length from the module centres by its definition (per net: weight x sum of distances to the mean of the member centres),
+    computed by the harness: a stale or cached value inside the library must not leak into the oracle"""
+    total = 0.0
+    for e in nl.edges:
+        cs = [(m.center.x, m.center.y) for m in e.modules]
+        mx, my = sum(c[0] for c in cs) / len(cs), sum(c[1] for c in cs) / len(cs)
+        total += e.weight * sum(math.hypot(c[0] - mx, c[1] - my) for c in cs)
+    return total
 
 
 def generate(rng, tier, i):
@@ -81,7 +92,8 @@ def generate(rng, tier, i):
             nets.append(e)
     die = {"fam": d["fam"], "W": W, "H": H, "regions": d["regions"], "fixed": {}, "struct": d["struct"], "netlist": {"Modules": mods, "Nets": nets}}
     if i % 4 == 3:
-        return {"cls": "algorithm", "die": die, "max_iter": rng.choice([0, 1, 2, 5, 5])}
+        # half of the runs query the netlist first (wire length, overlap): a legitimate earlier use that must not influence the result
+        return {"cls": "algorithm", "die": die, "max_iter": rng.choice([0, 1, 2, 5, 5]), "query_first": rng.random() < 0.5}
     return {"cls": "layout", "die": die, "kappa": rng.choice([1.0, 0.4, 1.5, 0.05, 3.0, round(rng.uniform(0.01, 3), 2)]), "max_iter": rng.choice([0, 1, 2, 5, 20])}
 
 
@@ -147,6 +159,9 @@ def check(case, ctx):
             ctx.violation("not_deterministic", f"two runs from equal inputs differ :: {what}")
         return
     # force_algorithm
+    if case.get("query_first"):
+        ctx.count("algorithm_runs_after_earlier_queries")
+        ctx.call(lambda: (die.netlist.wire_length, fr.total_intersection_area(die), die.netlist.num_rectangles))
     _trials.clear()
     ok, r = ctx.call(fr.force_algorithm, die, False, None, case["max_iter"])
     if not ok:
